@@ -298,6 +298,11 @@ def _coherence(ctx, rep, eng):
             for f in group:
                 v = attrs.get(f)
                 if isinstance(v, IntV):
+                    sy = getattr(v, "sym", None)
+                    if isinstance(sy, tuple) and sy and sy[0] == "const":
+                        # a literal (`x or 0` on the path where x is 0, truncation to the hour, "the 1st"):
+                        # chosen by the code, not taken from another datetime
+                        continue
                     src, fld = _dt_source(v)
                     srcs[f] = (src, fld)
             dts = {s for s, _ in srcs.values() if s is not None}
